@@ -87,6 +87,7 @@ struct PoolEngine : Engine {
 		knobs["slab_objects"] = slabs[kn.below(7)];
 		knobs["dstring_start"] = kn.chance(1, 3) ? 16 : 1024;
 		knobs["realloc"] = kn.chance(1, 3) ? 1 : 0;
+		knobs["malloc_fill"] = kn.chance(1, 2) ? 1 : 0;      // fresh heap memory holds garbage that depends on the allocation history (core.h)
 		p["knobs"] = knobs;
 		DocOpts dopt; dopt.images = true;
 		if (w.chance(1, 4)) dopt.email_heavy = true;
